@@ -52,7 +52,7 @@ func c17Gen(g *fw.GenCtx) []fw.Case {
 	var cases []fw.Case
 	rep := g.Pick(3, 20)
 	for r := 0; r < rep; r++ {
-		for _, prof := range []string{"mixed", "hot", "disjoint", "graphs", "schema", "jobs", "bulk", "tempstores"} {
+		for _, prof := range []string{"mixed", "hot", "disjoint", "graphs", "schema", "jobs", "bulk", "tempstores", "relabel"} {
 			for _, k := range []int{2, 4, 8, 32} {
 				ops := 40
 				if k == 32 {
@@ -250,12 +250,15 @@ func (c *c17Client) applyPriv(effs []c17Effect) {
 func (c *c17Client) step() {
 	ctx := context.Background()
 	g := c.w.graph
-	hotP := map[string]int{"mixed": 50, "hot": 100, "disjoint": 0, "bulk": 50}[c.prof]
+	hotP := map[string]int{"mixed": 50, "hot": 100, "disjoint": 0, "bulk": 50, "relabel": 100}[c.prof]
 	hot := c.rng.Intn(100) < hotP
 	kinds := []string{"addV", "addV", "addE", "addE", "delV", "delE", "getV", "getV", "getE", "scanV", "scanE", "adj", "labels"}
 	switch c.prof {
 	case "tempstores":
 		kinds = []string{"distinct2", "distinct2", "addV"}
+	case "relabel":
+		// the shared vertices are written again and again under alternating labels
+		kinds = []string{"addV", "addV", "addV", "addV", "addV", "addV", "getV", "scanV", "delV"}
 	case "graphs":
 		kinds = []string{"pgAdd", "pgDel", "pgPut", "pgGet", "listGraphs", "hgAdd", "hgDel", "addV", "getV"}
 	case "schema":
@@ -1286,10 +1289,11 @@ func c17Exec(w *fw.Worker, c fw.Case) fw.Result {
 
 func init() {
 	fw.Register(&fw.Property{
-		ID:          "C17",
-		Race:        true,
-		WorkerProcs: -1,
-		Rule:        "client sessions against one live GripServer (Badger, jobs on) over loopback gRPC in a -race worker: 8 profiles (mixed, hot ids only, disjoint ids only, graph create/delete/list, schema upload/read, job submit/poll/list/view/delete/search, bulk streams, traversals with two distinct() steps) x K in {2,4,8,32} clients x 3 / 20 seeded repetitions, GOMAXPROCS in {1,2,4,16}; 40 calls per client (10 for K=32, 3 in the distinct() profile) drawn from AddVertex, AddEdge, DeleteVertex (cascading), DeleteEdge, GetVertex, GetEdge, seven traversals incl. one with two distinct() steps, ListLabels, BulkAdd, AddGraph, DeleteGraph, ListGraphs, AddSchema, GetSchema, Submit, GetJob, ListJobs, ViewJob, DeleteJob, SearchJobs; every written value is unique (client.counter); 3 hot vertex ids and 4 hot edge ids shared by all clients, 3+3 private ids per client. Plus engine manager.GetTempKV and util.StreamBatch driven directly from concurrent goroutines. Non-trivial = at least one call started before an earlier call had returned; distinct = distinct (profile, K, seed).",
+		ID:                "C17",
+		Race:              true,
+		ScheduleDependent: true,
+		WorkerProcs:       -1,
+		Rule:              "client sessions against one live GripServer (Badger, jobs on) over loopback gRPC in a -race worker: 9 profiles (mixed, hot ids only, disjoint ids only, graph create/delete/list, schema upload/read, job submit/poll/list/view/delete/search, bulk streams, traversals with two distinct() steps, relabelling of the shared vertices) x K in {2,4,8,32} clients x 3 / 20 seeded repetitions, GOMAXPROCS in {1,2,4,16}; 40 calls per client (10 for K=32, 3 in the distinct() profile) drawn from AddVertex, AddEdge, DeleteVertex (cascading), DeleteEdge, GetVertex, GetEdge, seven traversals incl. one with two distinct() steps, ListLabels, BulkAdd, AddGraph, DeleteGraph, ListGraphs, AddSchema, GetSchema, Submit, GetJob, ListJobs, ViewJob, DeleteJob, SearchJobs; every written value is unique (client.counter); 3 hot vertex ids and 4 hot edge ids shared by all clients, 3+3 private ids per client. Plus engine manager.GetTempKV and util.StreamBatch driven directly from concurrent goroutines. Non-trivial = at least one call started before an earlier call had returned; distinct = distinct (profile, K, seed).",
 		Assumptions: []string{
 			"oracles: race-detector reports (keyed by the racing function pair, every key must be listed); the worker must survive; ids with one writer behave sequentially (every read and the final value equal that client's own history); values read on shared ids were written by some client before the read returned; the final values of the shared ids must be explained by an order of the acknowledged edits that respects each client's program order (constraint graph over write operations, acyclicity; a shared id that ends absent needs one delete that all acknowledged writers can precede, candidates tried one at a time against the definite constraints - permissive); index/data invariants I0-I3 of the stored graph at quiescence; jobs end COMPLETE with the 5 rows of their query",
 			"a call that returns an error counts as 'may have taken effect' (it constrains nothing and may explain a final value); refused calls are counted in the evidence",
